@@ -123,6 +123,26 @@ def judge(ctx, v, ob, case, ev=None):
             ctx.fail("P:C14:alarm-times", {**case, "alarm": i}, got, p["ref"][:4])
 
 
+def respell(wire, rnd):
+    """the same component with every duration of a TRIGGER / DURATION line in another RFC 5545 spelling of the same value:
+    an explicit plus sign, weeks for whole weeks, hours for days, P0D / -PT0S for zero"""
+    import re as _re
+
+    def one(m):
+        head, sign, body = m.group(1), m.group(2), m.group(3)
+        md = _re.fullmatch(rb"(\d+)D", body)
+        if md and int(md.group(1)) % 7 == 0 and int(md.group(1)) and rnd.random() < 0.8:
+            body = b"%dW" % (int(md.group(1)) // 7)
+        elif md and rnd.random() < 0.3:
+            body = b"T%dH" % (int(md.group(1)) * 24)
+        elif body == b"T0S" and rnd.random() < 0.5:
+            body, sign = rnd.choice([b"0D", b"T0H0M0S", b"0W"]), rnd.choice([b"", b"-", b"+"])
+        if sign == b"" and rnd.random() < 0.5:
+            sign = b"+"
+        return head + sign + b"P" + body
+    return _re.sub(rb"(?m)^((?:TRIGGER|DURATION)(?:;RELATED=[A-Za-z]+)?:)([+-]?)P([0-9A-Z]+)(?=\r?$)", one, wire)
+
+
 def run(ctx: Ctx):
     rnd = random.Random(ctx.seed)
     r = ctx.mc("MC_Alarms14", cfg_text(spec="Spec", constants={"ZoneOff": 1, "RepeatMax": 2, "RDurs": {10, 1440}},
@@ -152,7 +172,8 @@ def run(ctx: Ctx):
                             import re as _re
                             wire = _re.sub(rb"RELATED=(START|END)", lambda m: b"RELATED=" + bytes(
                                 (ch | 0x20) if rnd.random() < 0.5 else ch for ch in m.group(1)), comp.to_ical())
-                            comp = cls.from_ical(wire)
+                            # ... and a duration has several spellings (explicit plus sign, weeks, hours for days)
+                            comp = cls.from_ical(respell(wire, rnd))
                         ob = observe(comp)
                         ctx.evaluations += 1
                         judge(ctx, v, ob, {"x": x, "cls": cls.__name__, "route": route, "provider": prov})
@@ -204,16 +225,16 @@ def run(ctx: Ctx):
             alarms = []
             for _ in range(rnd.randint(0, 3)):
                 tk = rnd.choice(["none", "rel", "rel", "rel", "abs"])
-                trig = {"k": tk, "d": rnd.choice([-2880, -1440, -135, -15, 0, 20, 1440, 1500]) if tk == "rel" else 0,
+                trig = {"k": tk, "d": rnd.choice([-2880, -1440, -135, -15, 0, 20, 1440, 1500, -10080, 10080, -20160]) if tk == "rel" else 0,
                         "related": rnd.choice(["START", "END", "absent"]) if tk == "rel" else "",
                         "m": rnd.randint(0, 3000) if tk == "abs" else 0}
-                alarms.append({"trig": trig, "repeat": rnd.randint(0, 3), "dur": rnd.choice([-1, 5, 60, 1440])})
+                alarms.append({"trig": trig, "repeat": rnd.randint(0, 3), "dur": rnd.choice([-1, 5, 60, 1440, 10080])})
             x = {"c": {"start": start, "espec": espec}, "alarms": alarms}
             # keep results out of the nonexistent wall times 02:00-03:00 on 2024-03-31 (1560..1620)
             cls = (Event, Todo)[i % 2]
             comp, _ = build(cls, x["c"], alarms)
-            if rnd.random() < 0.5:
-                comp = cls.from_ical(comp.to_ical())
+            if rnd.random() < 0.6:
+                comp = cls.from_ical(respell(comp.to_ical(), rnd) if rnd.random() < 0.7 else comp.to_ical())
             ob = observe(comp)
             ctx.case(("rnd", repr(x)), True)
             judge(ctx, {"x": x}, ob, {"x": x, "cls": cls.__name__, "provider": prov}, ev=ev)
